@@ -355,25 +355,28 @@ type dcase struct {
 	hookActs []dact
 	anyPH    bool
 
-	seq      int
-	trace    []string
-	log      []string
-	curReq   *http.Request
-	curRec   *dispRecWriter
-	curCtx   *rux.Context
-	altReqs  map[*http.Request]int
-	actions  int // actions executed in the current request
-	expData  map[string]string
-	expParam string
-	oracle   []string
-	isTwin   bool
-	ctxSeen  map[*rux.Context]bool
-	ctxLost  map[*rux.Context]bool
-	lostSeen bool
-	lastCtx  *rux.Context       // a context this router handed out before (source of the contexts given to HandleContext)
-	dxRR     map[int]*rux.Route // the registered routes by id (targets of the `sh` action)
-	dn       dnState            // nested requests (action `nr`), see engine_dispatch_dn.go
-	kept     []*dKept           // copies kept by `kc`
+	seq    int
+	trace  []string
+	log    []string
+	curReq *http.Request
+	curRec *dispRecWriter
+	// in one case in three the front of the router recycles its ResponseWriter OBJECT: every second request arrives
+	// with the same writer value as the request before (re-pointed: new number, empty header map)
+	recycleRec bool
+	curCtx     *rux.Context
+	altReqs    map[*http.Request]int
+	actions    int // actions executed in the current request
+	expData    map[string]string
+	expParam   string
+	oracle     []string
+	isTwin     bool
+	ctxSeen    map[*rux.Context]bool
+	ctxLost    map[*rux.Context]bool
+	lostSeen   bool
+	lastCtx    *rux.Context       // a context this router handed out before (source of the contexts given to HandleContext)
+	dxRR       map[int]*rux.Route // the registered routes by id (targets of the `sh` action)
+	dn         dnState            // nested requests (action `nr`), see engine_dispatch_dn.go
+	kept       []*dKept           // copies kept by `kc`
 }
 
 // dKept is a Context.Copy() that a handler kept beyond its request.
@@ -954,7 +957,12 @@ func (cs *dcase) serve(f []string) string {
 	if cs.curReq.URL.RawQuery == "" {
 		cs.curReq.URL.RawQuery = "page=1&token=abc"
 	}
-	cs.curRec = &dispRecWriter{cs: cs, seq: cs.seq, hdr: http.Header{}}
+	if cs.recycleRec && cs.curRec != nil && cs.curRec.seq != 0 && cs.seq%2 == 0 && !cs.isTwin {
+		*cs.curRec = dispRecWriter{cs: cs, seq: cs.seq, hdr: http.Header{}}
+		dispStat("recycled_writer_objects", 1)
+	} else {
+		cs.curRec = &dispRecWriter{cs: cs, seq: cs.seq, hdr: http.Header{}}
+	}
 	outcome := "ret"
 	func() {
 		defer func() {
@@ -1159,6 +1167,7 @@ func runDispatch(ops []string) (ans []string, oracle []string) {
 				lost := cs.lostSeen
 				cs = newDcase()
 				cs.lostSeen = lost
+				cs.recycleRec = len(ops)%3 == 0
 			}
 			if r := cs.config(f); r != "" {
 				if r == "ok" {
